@@ -301,18 +301,28 @@ def run(repo: Repo, chk: Check) -> None:
            {'got': vrepr(res[0].value)}, what='arrays are not written as 4-byte big-endian length followed by the body')
     # non-minimal integers
     ui = repo.func(f'{FORGE}.unforge_int')
-    it = Interp(repo, _IntHooks(), max_depth=1, while_bound=2)
+    it = Interp(repo, _IntHooks(), max_depth=1, while_bound=3)
     res = it.run_function(ui, [Sym('data', 'bytes')])
 
-    def byte_zero_test(c):
-        return isinstance(c, App) and c.op == '==' and 0 in c.args and term_contains(
-            c, lambda t: isinstance(t, App) and t.op == 'getitem' and isinstance(t.args[0], Sym) and t.args[0].name == 'data'
-        ) and not term_contains(c, lambda t: isinstance(t, App) and t.op == 'op:BitAnd' and 128 in t.args)
+    def zero_test_index(c):
+        """index i of a path condition  data[i] == 0  (the whole byte, not a masked part), else None"""
+        if not (isinstance(c, App) and c.op == '==' and 0 in c.args):
+            return None
+        if term_contains(c, lambda t: isinstance(t, App) and t.op == 'op:BitAnd'):
+            return None
+        for a in c.args:
+            if isinstance(a, App) and a.op == 'getitem' and isinstance(a.args[0], Sym) and a.args[0].name == 'data' and isinstance(a.args[1], int):
+                return a.args[1]
+        return None
 
-    reject = [p for p in res if p.outcome == 'raise' and any(byte_zero_test(c) and b for c, b in p.conds)]
-    chk.ob('R-PATH', f'{FORGE}.unforge_int', bool(reject), 'non-minimal-integer-rejected', ui.loc,
-           {'paths': len(res), 'outcomes': sorted({p.outcome for p in res})},
-           what='unforge_int has no failing path for a zero final 7-bit group: non-minimal encodings such as 00 80 00 decode (as 0)')
+    rejected_at = sorted({zero_test_index(c) for p in res if p.outcome == 'raise' for c, b in p.conds if b and zero_test_index(c) is not None})
+    lengths = sorted({p.value[1] for p in res if p.outcome == 'return' and isinstance(p.value, tuple) and isinstance(p.value[1], int)})
+    # every multi-byte encoding explored (2, 3, ... bytes) must have a rejecting path on a zero last byte; the single byte 00 is the number 0
+    need = [n - 1 for n in lengths if n >= 2]
+    chk.ob('R-PATH', f'{FORGE}.unforge_int', bool(need) and all(i in rejected_at for i in need) and 0 not in rejected_at, 'non-minimal-integer-rejected', ui.loc,
+           {'paths': len(res), 'encoded_lengths_explored': lengths, 'rejected_when_zero_at_index': rejected_at},
+           what=f'unforge_int: encodings of {[n for n in lengths if n >= 2 and n - 1 not in rejected_at] or lengths} bytes whose last 7-bit group is zero are not rejected '
+                f'(rejecting paths exist for a zero byte at index {rejected_at}): non-minimal encodings such as 00 80 00 decode (as 0)')
 
     # ---- 4 len_bytes pairing -----------------------------------------------------------------------------------
     chk.set_clause('C05.4')
